@@ -31,6 +31,32 @@ def list_params_of(fn):
     return {i for i in range(1, fn.n_args + 1) if re.match(r"^&\[&", fn.local_ty(i))}
 
 
+KIND_TRAIT = {"extension": "solvers::specs::SingleExtensionComputer", "credulous": "solvers::specs::CredulousAcceptanceComputer", "skeptical": "solvers::specs::SkepticalAcceptanceComputer"}
+_scope_cache = {}
+
+
+def query_scope(prog, kind):
+    """ids of the library bodies reachable from the static solvers' methods of the trait that answers `kind` queries
+    ('extension' | 'credulous' | 'skeptical'); None = no restriction"""
+    if kind is None:
+        return None
+    key = (id(prog), kind)
+    if key not in _scope_cache:
+        roots = []
+        for imp in prog.impls_of_trait(KIND_TRAIT[kind]):
+            if not (imp.get("self_adt") or "").startswith("solvers::"):
+                continue
+            for m in imp["methods"]:
+                b = prog.lib(m["path"])
+                if b is not None:
+                    roots.append(b)
+        # constant-aware: bool flags the entry points pass (e.g. the assumption polarity of the stable solver) prune the
+        # branches - and the closures created in them - that the other query kind uses
+        visited, _ = _const_reach(prog, roots)
+        _scope_cache[key] = set(visited)
+    return _scope_cache[key]
+
+
 def static_acceptance_methods(prog):
     """(trait, impl, method body) for acceptance impls of static solvers"""
     out = []
@@ -142,7 +168,7 @@ def _diverges_entirely(b):
     return not b.exits()
 
 
-def rule_certificate_shapes(ctx):
+def rule_certificate_shapes(ctx, kind=None):
     prog = ctx.prog
     shp.clear_cache()
     r = ctx.rule(
@@ -153,6 +179,8 @@ def rule_certificate_shapes(ctx):
     )
     n = 0
     for tr, oracle, mname in ((CRED, CRED_OK, "are_credulously_accepted_with_certificate"), (SKEP, SKEP_OK, "are_skeptically_accepted_with_certificate")):
+        if kind is not None and KIND_TRAIT[kind] != tr:
+            continue
         for imp, b in prog.impl_methods(tr, mname):
             if _diverges_entirely(b):
                 r.note("%s: unimplemented (diverges on every path)" % b.path)
@@ -161,7 +189,7 @@ def rule_certificate_shapes(ctx):
             ss = shp.return_shapes(prog, b)
             bad = sorted((s for s in ss if s not in oracle), key=str)
             r.check(not bad, b.id, "shapes=%s" % bad, "returns only %s" % sorted(ss, key=str), "%s can return %s: a certificate appears / is missing where the contract says otherwise" % (mname, bad), b.loc())
-    r.floor(n, 18, "implemented *_with_certificate methods")
+    r.floor(n, 18 if kind is None else 8, "implemented *_with_certificate methods")
 
 
 def rule_no_extension_only_stable(ctx):
@@ -185,15 +213,16 @@ def rule_no_extension_only_stable(ctx):
 # stable solver: UNSAT in a component decides the whole query
 
 
-def rule_stable_unsat(ctx):
+def rule_stable_unsat(ctx, kind=None):
     prog = ctx.prog
+    scope = query_scope(prog, kind)
     r = ctx.rule(
         "stable-unsat-decides",
         "stable solver: at every SAT call of the per-component loop the UNSAT outcome returns immediately - `None` for SE, "
         "(status_on_unsat, None) for acceptance with the entry points passing (polarity, on_unsat) = (true,false) for credulous and "
         "(false,true) for skeptical - and the loop ranges over all components of the caller's framework",
     )
-    bodies = [b for b in prog.lib_bodies() if b.kind != "closure" and b.impl and b.impl.get("self_adt") == STABLE]
+    bodies = [b for b in prog.lib_bodies() if b.kind != "closure" and b.impl and b.impl.get("self_adt") == STABLE and (scope is None or b.id in scope)]
     n = 0
     for b in bodies:
         unwraps = [s for s in b.calls() if callee_decl(callee_of(s)) == "sat::sat_solver::SolvingResult::unwrap_model"]
@@ -249,6 +278,8 @@ def rule_stable_unsat(ctx):
                     pk = next(iter(rets))[1][0][1]
                     # entry points
                     for tr, want_unsat in ((CRED, False), (SKEP, True)):
+                        if kind is not None and KIND_TRAIT[kind] != tr:
+                            continue
                         for imp, eb in prog.impl_methods(tr, "are_%s_accepted_with_certificate" % ("credulously" if tr == CRED else "skeptically")):
                             if imp.get("self_adt") != STABLE:
                                 continue
@@ -261,7 +292,7 @@ def rule_stable_unsat(ctx):
             it = [s for s in b.calls() if callee_matches(callee_of(s), r"ConnectedComponentsComputer::iter_connected_components$")]
             ok = bool(it) and all(any(o.kind == "param" and o.data == 1 and [str(f) for f in o.fields] == ["af"] for o in origins(b, s.node["args"][0])) for s in it)
             r.check(ok, b.id + "|components", "component-source", "iterates all connected components of self.af", "the loop does not range over all components of the caller's framework", b.loc())
-    r.floor(n, 3, "SAT calls in the stable solver")
+    r.floor(n, 3 if kind is None else 1, "SAT calls in the stable solver")
 
 
 # ------------------------------------------------------------------------------------------
@@ -392,7 +423,7 @@ def rule_no_shortcut_with_certificate(ctx):
 # C02.3 membership answers for GR / ID
 
 
-def rule_membership_answers(ctx):
+def rule_membership_answers(ctx, kind=None):
     prog = ctx.prog
     r = ctx.rule(
         "membership-answers",
@@ -402,6 +433,8 @@ def rule_membership_answers(ctx):
     n = 0
     for path, ext_src in (("solvers::grounded_semantics_solver::GroundedSemanticsSolver", r"AAFramework::grounded_extension$"), ("solvers::ideal_semantics_solver::IdealSemanticsSolver", r"compute_one_extension$")):
         for tr, mname in ((CRED, "are_credulously_accepted_with_certificate"), (SKEP, "are_skeptically_accepted_with_certificate")):
+            if kind is not None and KIND_TRAIT[kind] != tr:
+                continue
             for imp, b in prog.impl_methods(tr, mname):
                 if imp.get("self_adt") != path:
                     continue
@@ -429,7 +462,7 @@ def rule_membership_answers(ctx):
                 r.check(ok, b.id, "not-membership", "status = any(listed argument in the extension)", "the status is not the membership test `any(listed argument in the computed extension)` over the whole list", b.loc())
                 ext_ok = any(callee_matches(callee_of(s), ext_src) for s in b.calls())
                 r.check(ext_ok, b.id + "|extension", "extension-source", "the extension is computed for the whole framework", loc=b.loc())
-    r.floor(n, 3, "membership-style acceptance methods")
+    r.floor(n, 3 if kind is None else 1, "membership-style acceptance methods")
 
 
 def accept_list_params(fn):
@@ -466,7 +499,7 @@ def _predicate_class(prog, clo):
     return None
 
 
-def rule_list_quantifiers(ctx):
+def rule_list_quantifiers(ctx, kind=None):
     prog = ctx.prog
     r = ctx.rule(
         "list-quantifiers",
@@ -474,7 +507,7 @@ def rule_list_quantifiers(ctx):
         "(every listed argument is outside / attacked by the set): the only quantifier/predicate pairs that match a disjunctive query",
     )
     methods = static_acceptance_methods(prog)
-    roots = [b for _, _, _, b in methods]
+    roots = [b for tr, _, _, b in methods if kind is None or KIND_TRAIT[kind] == tr]
     reach = prog.reachable_from(roots, virtual_dispatch=False)
     n = 0
     for b in sorted(reach.values(), key=lambda x: x.id):
@@ -504,7 +537,7 @@ def rule_list_quantifiers(ctx):
                 continue
             ok = (q, pc) in (("any", "member"), ("all", "not-member"), ("all", "attacked"))
             r.check(ok, anchor, "%s-of-%s" % (q, pc), "%s(%s) over the listed arguments" % (q, pc), "`%s` is applied to a `%s` test over the listed arguments: a query over several arguments is no longer decided as the disjunction of its members" % (q, pc), s.loc())
-    r.floor(n, 6, "quantifiers over the query list in static acceptance code")
+    r.floor(n, 6 if kind is None else 2, "quantifiers over the query list in static acceptance code")
 
 
 # ------------------------------------------------------------------------------------------
